@@ -15,15 +15,19 @@ FRESH = ["n1", "n2"]
 LIBN = ["t", "lib"]
 LIBS = ["s", "lib"]
 SRC = "(define-library (s lib) (export a b xa d) (begin (define a 1) (define b 2) (define xa 3) (define d 4)))"
+# a library exporting the same names with values that are numerically equal to the first one's but not the same (inexact)
+TWIN = ["s", "twin"]
+TWIN_SRC = "(define-library (s twin) (export a b xa d) (begin (define a 1.0) (define b 2.0) (define xa 3.0) (define d 4.0)))"
+TWIN_EXPORTS = {"a": ("r", 0x3f800000), "b": ("r", 0x40000000), "xa": ("r", 0x40400000), "d": ("r", 0x40800000)}
 
 
 # ---------------------------------------------------------------- the reference algebra
-def ev(term):
+def ev(term, base=None):
     """name -> value map of a term (python model). term: ('lib',) | ('only', t, ids) | ('except', t, ids) | ('prefix', t, p) | ('rename', t, pairs)"""
     k = term[0]
     if k == "lib":
-        return dict(EXPORTS)
-    m = ev(term[1])
+        return dict(base if base is not None else EXPORTS)
+    m = ev(term[1], base)
     if k == "only":
         return {n: v for n, v in m.items() if n in term[2]}
     if k == "except":
@@ -72,12 +76,21 @@ def children(term, rng):
     return out
 
 
+def with_repeats(ids):
+    """an identifier may be written more than once in an only/except list: the list denotes a set (deterministic per list)"""
+    ids = list(ids)
+    h = sum(len(x) * 7 + ord(x[0]) for x in ids) + len(ids)
+    if ids and h % 5 == 0:
+        ids.insert(h % (len(ids) + 1), ids[h % len(ids)])
+    return ids
+
+
 def to_json(term, lib):
     k = term[0]
     if k == "lib":
         return {"lib": lib}
     if k in ("only", "except"):
-        return {k: [to_json(term[1], lib), list(term[2])]}
+        return {k: [to_json(term[1], lib), with_repeats(term[2])]}
     if k == "prefix":
         return {"prefix": [to_json(term[1], lib), term[2]]}
     return {"rename": [to_json(term[1], lib), [list(p) for p in term[2]]]}
@@ -88,7 +101,7 @@ def to_text(term, lib):
     if k == "lib":
         return "(%s)" % " ".join(lib)
     if k in ("only", "except"):
-        return "(%s %s %s)" % (k, to_text(term[1], lib), " ".join(term[2]))
+        return "(%s %s %s)" % (k, to_text(term[1], lib), " ".join(with_repeats(term[2])))
     if k == "prefix":
         return "(prefix %s %s)" % (to_text(term[1], lib), term[2])
     return "(rename %s %s)" % (to_text(term[1], lib), " ".join("(%s %s)" % p for p in term[2]))
@@ -112,7 +125,7 @@ def observed_map(step):
         return None
     out = {}
     for n, v in val.items():
-        out[n] = v.get("i") if isinstance(v, dict) and "i" in v else ("?", json.dumps(v)[:40])
+        out[n] = v.get("i") if isinstance(v, dict) and "i" in v else (("r", v["r"]) if isinstance(v, dict) and "r" in v else ("?", json.dumps(v)[:40]))
     return out
 
 
@@ -146,7 +159,7 @@ def run(tier, seed):
                 "(operator nesting, identifier-list lengths, rename kind swap/chain/plain)" % (depth, " (depth <= 2 exhaustive, depth 3: %d sampled)" % d3_sample, replicas))
     ctx.assumptions = ["admissible terms only: identifiers present, resulting names unique"]
     leg = "dev" if tier == "quick" else "release"
-    interp = {"stdlib": False, "natives": False, "libs": [{"name": LIBN, "native": [[n, v] for n, v in EXPORTS.items()]}, {"name": LIBS, "src": SRC}]}
+    interp = {"stdlib": False, "natives": False, "libs": [{"name": LIBN, "native": [[n, v] for n, v in EXPORTS.items()]}, {"name": LIBS, "src": SRC}, {"name": TWIN, "src": TWIN_SRC}]}
     per = 400
     jobs, meta = [], []
     for rep in range(replicas):
@@ -209,6 +222,42 @@ def run(tier, seed):
         else:
             ctx.count("text_imports"); ctx.count("text_imports_%d_sets" % len(decl))
     ctx.legs.append(leg + ":import-text")
+    # histories of two or three declarations on ONE environment: a later declaration binds names an earlier one bound, to values of the twin
+    # library (numerically equal, inexact) or of the same library under other names; after each declaration the names it yields have ITS values
+    jobs, meta = [], []
+    small = [t for t in terms if depth_of(t) <= 2]
+    for _ in range(1500 if tier == "quick" else core.share(20000)):
+        decls = []
+        for j in range(rng.choice([2, 2, 3])):
+            t = rng.choice(small if rng.random() < 0.7 else terms)
+            which = rng.choice(["lib", "twin", "twin"]) if j else rng.choice(["lib", "lib", "twin"])
+            decls.append((t, which))
+        texts = ["(import %s)" % to_text(t, TWIN if w == "twin" else rng.choice([LIBN, LIBS])) for t, w in decls]
+        steps = []
+        for tx in texts:
+            steps += [{"src": tx}, {"env_names": True}]
+        jobs.append({"id": "c12h", "interps": [interp], "steps": steps, "fuel": 100000}); meta.append((decls, texts))
+    recs = core.run_jobs(jobs, leg, timeout=900, tag="c12h")
+    for (decls, texts), rec in zip(meta, recs):
+        if rec is None or "steps" not in rec:
+            ctx.inconclusive_cases += 1; continue
+        ctx.evaluations += 1
+        exp = {}
+        bad = None
+        for j, (t, w) in enumerate(decls):
+            exp.update(ev(t, TWIN_EXPORTS if w == "twin" else EXPORTS))
+            k0, v0 = core.outcome(rec["steps"][2 * j])
+            got = observed_map(rec["steps"][2 * j + 1])
+            if k0 != "ok" or got != exp:
+                bad = (j, got, rec["steps"][2 * j]); break
+        if bad:
+            j, got, st = bad
+            ctx.violation({"what": "after a later import declaration on the same environment the names it yields are not bound to the values of ITS library", "kind": "import-history",
+                           "declarations": texts[:j + 1], "expected": {k: str(v) for k, v in exp.items()}, "observed": {k: str(v) for k, v in (got or {}).items()} if got is not None else None,
+                           "import_outcome": st if "ok" not in st else "ok", "dedupe": "hist|%d" % j}, {"texts": texts})
+        else:
+            ctx.count("import_histories"); ctx.nontriv("H|" + "+".join(shape(t) + w[0] for t, w in decls)[:80])
+    ctx.legs.append(leg + ":import-histories")
     for i in sample[:4]:
         ctx.sample({"term": to_text(terms[i], LIBN), "binds": ev(terms[i])})
     return ctx.finish(min_evals=1000, min_nontrivial=50)
@@ -217,8 +266,12 @@ def run(tier, seed):
 def replay(path):
     data = json.load(open(path))
     r = data["replay"]
-    interp = {"stdlib": False, "natives": False, "libs": [{"name": LIBN, "native": [[n, v] for n, v in EXPORTS.items()]}, {"name": LIBS, "src": SRC}]}
-    if "json" in r:
+    interp = {"stdlib": False, "natives": False, "libs": [{"name": LIBN, "native": [[n, v] for n, v in EXPORTS.items()]}, {"name": LIBS, "src": SRC}, {"name": TWIN, "src": TWIN_SRC}]}
+    if "texts" in r:
+        steps = []
+        for tx in r["texts"]:
+            steps += [{"src": tx}, {"env_names": True}]
+    elif "json" in r:
         steps = [{"import": r["json"], "fresh_env": True}]
     else:
         steps = [{"src": r["text"]}, {"env_names": True}]
